@@ -178,6 +178,22 @@ def main(ctx: Ctx):
                 ctx.case(('blocked-consumer', kind, how), True, sample={'case': 'consumer blocked before the death', 'kind': kind, 'how': how, 'got': list(got), 'still_blocked': blocked})
                 if blocked or got != [4, 9]:
                     ctx.fail(f'blocked-consumer:{kind}:{how}', f'{kind}: consumer blocked in results_iter() before the worker was stopped ({how}): still blocked={blocked}, got {got}', {'kind': kind, 'scenario': 'blocked-consumer', 'how': how})
+                # reads past the end of a worker that died on its own or was killed behind the parent's back: the parent has
+                # not called is_alive() / wait() / terminate() since; the child (and the parent-side forwarding thread) are
+                # given time to be really gone first, so that the read is issued after the death
+                if how in ('exception', 'kill') and not blocked:
+                    try:
+                        w._child.join(6)
+                    except Exception:
+                        pass
+                    time.sleep(0.5)
+                    import queue as _queue
+                    st, v = watchdog(lambda: w.next_result(), 6)
+                    st2, v2 = watchdog(lambda: list(w.results_iter()), 6)
+                    ctx.case(('read-past-end', kind, how), True, sample={'case': 'reads past the end of a worker that died on its own', 'kind': kind, 'how': how, 'next_result': st if st != 'exc' else type(v).__name__, 'results_iter': v2 if st2 == 'ok' else st2})
+                    if not (st == 'exc' and isinstance(v, _queue.Empty)) or st2 != 'ok' or v2 != []:
+                        ctx.fail(f'read-past-end-blocks:{kind}:{how}', f'{kind}: worker died ({how}) without the parent asking about it; after the stream had ended next_result() gave {st if st != "exc" else repr(v)} '
+                                 f'and a second results_iter() gave {v2 if st2 == "ok" else st2} (expected queue.Empty and [])', {'kind': kind, 'scenario': 'read-past-end', 'how': how})
                 try:
                     w.terminate(0.5, **({'force': True} if kind != 'thread' else {}))
                 except Exception:
